@@ -1,12 +1,12 @@
 SPECIFICATION Spec
 CONSTANTS
-  MaxFuncs = 2
+  MaxFuncs = 1
   MaxStmts = 1
   FuncKinds = {"func", "method"}
-  BodyKinds = {"call", "var", "fwd", "if", "funclit", "defer"}
-  StmtKinds = {"call"}
+  BodyKinds = {"call", "var"}
+  StmtKinds = {"call", "if", "switch", "swtag"}
   GapSet = "g2"
   CaseGapSet = "g2"
   FileKind = "xgo"
-  RelBases = {"same"}
+  RelBases = {"same", "unset", "sibling", "unrelated"}
 INVARIANTS TypeOK IdsOnce StmtStart Monotone DocAdjacent Balanced DeviationsNamed HelpersDeclared RelCorrect Export
